@@ -160,7 +160,7 @@ def h_dest(ctx, N1, N2, mode, variant, abandon=False):
                           "fresh": str(va)[:300], "used": str(vb)[:300]})
 
 
-def h_src(ctx, T, mode, hist, hist_mode=None):
+def h_src(ctx, T, mode, hist, hist_mode=None, other_file=False, script2=None):
     """second transaction on a source handler that already ran one, vs a fresh handler"""
     from vf.harness.c10 import SRC_STATE
     w = World(ctx)
@@ -171,7 +171,14 @@ def h_src(ctx, T, mode, hist, hist_mode=None):
     # earlier transaction on `used` (scripted, symbolic file size), must end idle; optionally in
     # the other transmission mode (request-level override) with closure
     hm = None if hist_mode is None else (ACK if hist_mode == "ack" else UNACK)
-    used.put(mode=hm, closure=None if hm is None else True)
+    hist_kw = {}
+    if other_file:
+        # the earlier transaction sent another file: unrelated content, its own (symbolic) size
+        s0 = ctx.int("S0", 0, 2**20)
+        ctx.assume(s0 <= used.M * used.seg)
+        used.rig.fs.add_source_file("/src/old.bin", s0, alt=True)
+        hist_kw = {"src": "/src/old.bin", "dst": "/dst/old.bin"}
+    used.put(mode=hm, closure=None if hm is None else True, **hist_kw)
     o = used.sm()
     hsrc.end_if_other_property(ctx, o)
     used.remember_conf()
@@ -179,6 +186,9 @@ def h_src(ctx, T, mode, hist, hist_mode=None):
     script = {"completed": ["SM", "SM", "SM", "ACKEOF", "FIN", "SM", "SM"],
               "cancelled": ["SM", "CANCEL", "ACKEOF", "FIN", "SM", "SM"],
               "retransmitted": ["SM", "NAK", "SM", "SM", "SM", "ACKEOF", "FIN", "SM", "SM"],
+              # ends while a re-transmission is pending (NAK served, then cancelled / abandoned)
+              "cancelled_in_retransmission": ["SM", "SM", "SM", "NAK", "CANCEL", "ACKEOF", "FIN", "SM", "SM"],
+              "cancelled_in_early_retransmission": ["SM", "NAK", "CANCEL", "ACKEOF", "FIN", "SM", "SM"],
               "abandoned": ["SM", "SM", "SM", "TICK1", "TICK1", "TICK1", "TICK1", "TICK1"]}[hist]
     used.vp = "h"
     for evn in script:
@@ -212,7 +222,7 @@ def h_src(ctx, T, mode, hist, hist_mode=None):
     used.vp = ""
     fresh.n = used.n = 0
     for i in range(T):
-        a = fresh.step(SRC_STATE[mode])
+        a = fresh.step(script2[i] if script2 else SRC_STATE[mode])
         hsrc.end_if_other_property(ctx, a)
         ev = fresh.events[-1]
         b = used.replay_on(ev)
@@ -228,7 +238,7 @@ def src_view(o):
         if k == "FD":
             pd.append((k, p.offset, p.file_data))
         elif k == "EOF":
-            pd.append((k, int(p.condition_code), p.file_size))
+            pd.append((k, int(p.condition_code), p.file_size, p.file_checksum))
         elif k == "MD":
             pd.append((k, p.file_size, int(p.checksum_type), bool(p.closure_requested)))
         else:
@@ -261,6 +271,17 @@ def plan(tier):
                           "vf.harness.c11:h_src",
                           {"T": 2 if q else 3, "mode": mode, "hist": "completed", "hist_mode": hmode},
                           twin_share=0.05, obligations=["history_ended_idle"]))
+    for mode in ("ack", "unack"):
+        specs.append(Spec(f"src/{mode}/second-transaction-after-another-file/T=3", "vf.harness.c11:h_src",
+                          {"T": 3, "mode": mode, "hist": "completed", "other_file": True,
+                           "script2": [["SM"], ["SM"], ["SM", "TICK"]]}, twin_share=0.05,
+                          obligations=["history_ended_idle"]))
+    for hist, script2 in (("cancelled_in_retransmission", [["NAK"], ["SM"], ["SM"]]),
+                          ("cancelled_in_early_retransmission", [["SM"], ["SM"], ["SM"], ["NAK"], ["SM"]])):
+        # the follow-up NAK arrives in another step than the one the history's NAK was served in
+        specs.append(Spec(f"src/ack/second-transaction-after-{hist}/T={len(script2)}", "vf.harness.c11:h_src",
+                          {"T": len(script2), "mode": "ack", "hist": hist, "script2": script2}, twin_share=0.05,
+                          obligations=["history_ended_idle"]))
     for mode in ("ack", "unack"):
         for hist in ("completed", "cancelled", "retransmitted", "abandoned"):
             if mode == "unack" and hist in ("retransmitted", "abandoned"):
